@@ -186,3 +186,61 @@ def declare_pop3_relay(reg):
     )
     reg.properties.setdefault("C20", {}).setdefault("bounded", []).append(
         {"name": "pop3-response-relay-unmodified", "module": "harness.pop3", "func": "Pop3Relay"})
+
+
+def declare_pop3_gate(reg):
+    """POP3 front end (C18 a): before PASS succeeds nothing is forwarded to a user process; the state changes only through _do_pass."""
+    S = "asimap/pop3_server.py"
+    T = dict(trusted=True)
+    import pyvc.sorts as _s
+
+    reg.exc_parents.setdefault("BadPOP3Command", "Exception")
+    reg.classdef("POP3Command", {"command": "str", "args": "str", "raw": "str"})
+    reg.classes["POP3SubprocessInterface"].fields["g_sub_out"] = _s.parse_ty("list[str]")
+    reg.contract("asimap/pop3_parse.py", "parse_pop3_command", params={"msg": "str"}, ret="ref:POP3Command", raises={"BadPOP3Command": None}, **T,
+                 note="POP3 command line -> (COMMAND upper-cased, argument string); not under contract")
+    reg.contract(S, "POP3SubprocessInterface.push_to_subprocess", params={"self": "ref:POP3SubprocessInterface", "data": "list[str]"},
+                 ensures={"appended": "appended(self.g_sub_out, old(self.g_sub_out), data)", "len": "len(self.g_sub_out) == len(old(self.g_sub_out)) + len(data)"},
+                 modifies=["self.g_sub_out"], yields=True, ghost={"varargs": "data"}, **T,
+                 note="A-ASYNC: writes the data, in order, to the user process's socket if there is one (ghost g_sub_out)")
+    PW = "pw_ok(local('pop3_cmd').args, pwfile_hash(some(self.username)))"
+    reg.contract(
+        S, "POP3SubprocessInterface.handle_authorization", params={"self": "ref:POP3SubprocessInterface", "msg": "str"}, ret="bool",
+        requires={"in-authorization-state": "self.state == 'authorization'",
+                  "loaded-is-file": "implies(not reload_due(), forall(lambda u: (u in USERS) == pwfile_has(u), 'str') and "
+                                    "forall(lambda u: implies(u in USERS, get(USERS, u).pw_hash == pwfile_hash(u)), 'str'))"},
+        ensures={
+            # the session leaves AUTHORIZATION only through PASS with a password the account's current hash accepts
+            "transaction-only-for-an-existing-account": "implies(self.state != 'authorization', self.state == 'transaction' and not is_none(self.username) and pwfile_has(some(self.username)))",
+            # nothing is written to a user process in this state
+            "nothing-forwarded": "same(self.g_sub_out, old(self.g_sub_out))",
+        },
+        raises={"OSError": None, "ConnectionResetError": None},
+        exc_ensures={"nothing-forwarded": "same(self.g_sub_out, old(self.g_sub_out))"},
+        modifies=["self.username", "self.state", "self.writer", "self.wait_task", "global.BAD_USER_AUTHS", "global.BAD_IP_AUTHS", "global.USERS", "global.PW_FILE_LAST_TIMESTAMP", "POP3Client.g_out"],
+        ghost={"globals": {**G_AUTH, **G_THR},
+               # ... and the password that _do_pass checks (its contract: TRANSACTION only if the account's hash accepts it) is the one the client sent
+               "call_asserts": {"_do_pass": {"checks-the-password-that-was-sent": "arg_password == pop3_cmd.args and not is_none(self.username)"}}},
+        is_async=True,
+        props=["C18"],
+    )
+    G = "self.g_sub_out"
+    reg.contract(
+        S, "POP3SubprocessInterface.message", params={"self": "ref:POP3SubprocessInterface", "msg": "str"}, ret="bool",
+        requires={"known-state": "self.state == 'authorization' or self.state == 'transaction'",
+                  "loaded-is-file": "implies(not reload_due(), forall(lambda u: (u in USERS) == pwfile_has(u), 'str') and "
+                                    "forall(lambda u: implies(u in USERS, get(USERS, u).pw_hash == pwfile_hash(u)), 'str'))"},
+        ensures={
+            # C18 (a): before authentication nothing reaches the per-user process
+            "gate": f"implies(old(self.state) != 'transaction', same({G}, old({G})))",
+            # one frame per command afterwards: '{<octets>}\\n' followed by exactly the command
+            "frame": f"implies(old(self.state) == 'transaction', result == True and len({G}) == len(old({G})) + 2 and "
+                     f"{G}[len({G}) - 2] == '{{' + str(len(msg)) + '}}\\n' and {G}[len({G}) - 1] == msg)",
+        },
+        raises={"OSError": None, "ConnectionResetError": None},
+        exc_ensures={"gate": f"implies(old(self.state) != 'transaction', same({G}, old({G})))"},
+        modifies=["self.g_sub_out", "self.username", "self.state", "self.writer", "self.wait_task", "global.BAD_USER_AUTHS", "global.BAD_IP_AUTHS", "global.USERS", "global.PW_FILE_LAST_TIMESTAMP", "POP3Client.g_out"],
+        ghost={"globals": {**G_AUTH, **G_THR}},
+        is_async=True,
+        props=["C18"],
+    )
